@@ -73,7 +73,21 @@ type tracer struct {
 	late    int // events after quiesce (premature time-out indicator)
 	order   []*pinfo
 	tcEv    []string
+	maxEv   int
+	over    bool
 }
+
+func setMaxEvents(t *tracer, n int) {
+	if t == nil {
+		return
+	}
+	if n <= 0 {
+		n = 30000
+	}
+	t.maxEv = n
+}
+
+func overflowed(t *tracer) bool { return t != nil && t.over }
 
 func goid() int64 {
 	var b [64]byte
@@ -140,6 +154,10 @@ func (t *tracer) emit(e Ev) {
 	}
 	if t.quiesce && e.E != "quiesce" {
 		t.late++
+	}
+	if t.maxEv > 0 && len(t.events) >= t.maxEv {
+		t.over = true
+		return
 	}
 	t.events = append(t.events, e)
 }
